@@ -786,7 +786,9 @@ func genErrVal(thorough bool) Gen {
 			name string
 			mk   func(raise Stat) []Stat // defines function body() that raises
 		}{
-			{"direct", func(raise Stat) []Stat { return []Stat{LocalFunc("body", Func(nil, false, Emit(Str("in")), raise, Emit(Str("not-reached"))))} }},
+			{"direct", func(raise Stat) []Stat {
+				return []Stat{LocalFunc("body", Func(nil, false, Emit(Str("in")), raise, Emit(Str("not-reached"))))}
+			}},
 			{"nested", func(raise Stat) []Stat {
 				return []Stat{LocalFunc("thrower", Func(nil, false, raise)), LocalFunc("body", Func(nil, false, Local1("x", Num(1)), CallS(Name("thrower")), Emit(Str("not-reached"))))}
 			}},
